@@ -38,6 +38,7 @@ type gen struct {
 	bctr   int
 	maker  string // name of a defined function that returns a closure counting up from its argument
 	ctl    bool   // profile: generate non-local exits, cleanups, errors
+	inline bool   // profile "defs": also inline lambda calls ((lambda (p) ...) arg)
 	noExit int    // > 0 while inside a position from which an exit is not generated (cleanup forms, binding init forms)
 }
 type fdef struct {
@@ -102,6 +103,13 @@ func (g *gen) num(d int, vars []string) N {
 	}
 	if x := g.exitForm(d, vars); x != nil && g.one(12) {
 		return x
+	}
+	if g.inline && len(vars) > 0 && g.one(8) {
+		// ((lambda (p) (+ p v)) arg): an inline lambda call whose body uses a variable of the enclosing function
+		p := g.fresh()
+		v := vars[g.rng.Intn(len(vars))]
+		lam := N{"k": "lam", "ps": []any{p}, "body": []any{g.m(N{"k": "add", "a": N{"k": "var", "n": p}, "b": N{"k": "var", "n": v}})}}
+		return g.m(N{"k": "fcall", "f": lam, "args": []any{g.noex(func() N { return g.num(d-1, vars) })}, "spread": false, "inline": true})
 	}
 	switch ch := g.rng.Intn(26); {
 	case ch < 3:
@@ -537,6 +545,9 @@ func render(n N) string {
 	case "fnref":
 		return "#'" + n["name"].(string)
 	case "fcall":
+		if inl, _ := n["inline"].(bool); inl {
+			return fmt.Sprintf("(%s%s)", render(n["f"].(N)), rlist(n["args"].([]any)))
+		}
 		name := "funcall"
 		if n["spread"].(bool) {
 			name = "apply"
@@ -669,7 +680,7 @@ func c01Gen(args []string) {
 	w := bufio.NewWriter(os.Stdout)
 	defer w.Flush()
 	enc := json.NewEncoder(w)
-	g := &gen{rng: rand.New(rand.NewSource(int64(seed))), ctl: profile == "ctl"}
+	g := &gen{rng: rand.New(rand.NewSource(int64(seed))), ctl: profile == "ctl", inline: profile == "defs"}
 	for t := 1; t <= ntr; t++ {
 		g.mark, g.funcs, g.blocks, g.tags, g.maker = 0, nil, nil, nil, ""
 		var defs []any
@@ -704,6 +715,22 @@ func c01Gen(args []string) {
 			defs = append(defs, N{"name": name, "ps": pa, "body": body})
 			defsrc = append(defsrc, fmt.Sprintf("(defun %s (%s)%s)", name, strings.Join(ps, " "), rlist(body)))
 			g.funcs = append(g.funcs, fdef{name, ar})
+		}
+		if profile == "defs" {
+			// a mutually recursive pair: (defun ev (n) (if (or (< n 1) (< 6 n)) 1 (od (- n 1)))) and od likewise with 0
+			g.fctr++
+			ev, od := fmt.Sprintf("evd%d-%d", seed, g.fctr), fmt.Sprintf("odd%d-%d", seed, g.fctr)
+			for k, pair := range [][2]string{{ev, od}, {od, ev}} {
+				p := g.fresh()
+				body := []any{N{"k": "if", "c": N{"k": "or", "es": []any{
+					N{"k": "lt", "a": N{"k": "var", "n": p}, "b": lit(I(1))},
+					N{"k": "lt", "a": lit(I(6)), "b": N{"k": "var", "n": p}}}},
+					"a": g.m(lit(I(1 - k))),
+					"b": g.m(N{"k": "call", "f": pair[1], "args": []any{N{"k": "sub", "a": N{"k": "var", "n": p}, "b": lit(I(1))}}})}}
+				defs = append(defs, N{"name": pair[0], "ps": []any{p}, "body": body})
+				defsrc = append(defsrc, fmt.Sprintf("(defun %s (%s)%s)", pair[0], p, rlist(body)))
+			}
+			g.funcs = append(g.funcs, fdef{ev, 1}, fdef{od, 1})
 		}
 		{
 			// (defun mk (p) (lambda (q) (setq p (+ p q)))): each call makes a closure over a binding of its own
